@@ -87,12 +87,19 @@ end Front
 
 /-! ## `_compute_2d` -/
 
+/-- rows `i ≥ 1` of the sweep: `y = np.minimum.accumulate(sols[:, 1])`; `prevY` is `y[i-1]`, the row contributes
+`(ref[0] - x_i) · (y[i-1] - y[i])` with `y[i] = min(y[i-1], sols[i, 1])` — nothing when it is dominated or a
+duplicate. -/
 def compute2dGo (r0 : Int) : Int → List Pt → Int
   | _, [] => 0
-  | prevY, p :: t => (r0 - x0 p) * (prevY - y1 p) + compute2dGo r0 (y1 p) t
+  | prevY, p :: t => (r0 - x0 p) * (prevY - min prevY (y1 p)) + compute2dGo r0 (min prevY (y1 p)) t
 
-/-- `edge_length_x @ edge_length_y` with `rect_diag_y = [ref[1], y_0, …, y_{n-2}]` -/
-def compute2d (r : Pt) (S : List Pt) : Int := compute2dGo (x0 r) (y1 r) S
+/-- `edge_length_x @ edge_length_y` with `y = cummin(sols[:, 1])`, `rect_diag_y = [ref[1], y_0, …, y_{n-2}]`,
+`edge_length_y = rect_diag_y - y` (row 0: `y_0 = sols[0, 1]`, no minimum with the reference) -/
+def compute2d (r : Pt) (S : List Pt) : Int :=
+  match S with
+  | [] => 0
+  | p :: t => (x0 r - x0 p) * (y1 r - y1 p) + compute2dGo (x0 r) (y1 p) t
 
 /-! ## `_compute_hv` / `_compute_exclusive_hv` -/
 
